@@ -175,6 +175,10 @@ func runC01(tier string, seed uint64, o *Out) error {
 		ops := genTimeOps(rng, size, c.ooo, n, nil, far)
 		if i%25 == 3 {
 			ops = overflowThenQuiet(rng, size, nil)
+		} else if size >= int64(time.Second) && i%3 == 1 {
+			// a replay of historical data with a pause of more than a day in event time (far behind the wall clock)
+			jumpOps(ops, int64(n/3), int64(25*time.Hour)+int64(rng.Intn(40))*int64(time.Hour))
+			o.Count("pause of more than 24 h in event time (replay)")
 		}
 		scaleOps(ops, unit)
 		c = twCfg{c.size * unit, c.ooo * unit, c.late * unit}
